@@ -185,6 +185,10 @@ def build() -> Check:
             reads_before = [e for e in t.events[: t.events.index(puts[0])] if e.kind == "EV_ISSET" and "checkpointing_failed" in e.data["ev"]]
             if not reads_before:
                 pre.append(("an update is enqueued without consulting the failure flag first", t))
+            elif any(e.data.get("result") for e in reads_before):
+                # consulting is not enough: a producer that SAW the flag raised and enqueues all the same hands its update to a consumer that has left its
+                # loop - an asynchronous caller is told nothing at all ("every caller subsequently issuing a checkpoint is woken with the failure")
+                pre.append(("the failure flag was seen raised before the put and the update is enqueued all the same", t))
         all_waits = [e for e in t.events if e.kind == "EV_WAIT" and "checkpointing_failed" not in e.data["ev"]]
         waits = [e for e in all_waits if not e.data["bounded"]]
         if puts and all_waits:
@@ -255,6 +259,15 @@ def build() -> Check:
                 bad.append((f"{t.exc_class()} escapes the done-callback (the pool swallows it): nobody sets the completion event, the caller of map/parallel waits forever", t))
             elif o == "BackgroundThreadError" and not t.kinds("COMPLETION_SET"):
                 bad.append(("a checkpoint failure inside a branch does not wake the waiting map/parallel call", t))
+            elif o in ("BackgroundThreadError", "OrphanedChildException"):
+                # woken WITH the error: the waiter re-raises what was stored for it; an empty slot lets execute() go on to build a result
+                # (SUCCEEDED after a failed checkpoint) - and an orphaned nested executor that is not woken at all waits for ever
+                cs = t.kinds("COMPLETION_SET")
+                st_ = [e for e in t.events if e.kind == "SETATTR" and e.data["attr"] == "_fatal_exception"]
+                if not cs:
+                    bad.append((f"a branch ending with {o} does not wake the waiting map/parallel call (a nested executor inside an orphaned branch waits for ever)", t))
+                elif not st_ or t.events.index(st_[0]) > t.events.index(cs[0]):
+                    bad.append((f"a branch ending with {o} wakes the waiting call without having stored the error for it: execute() goes on as if nothing had happened", t))
         ck.ob("R4.done-callback-routes-every-outcome", fn_construct(fn), not bad, bad[0][0] if bad else "", cell=o)
     # the fatal error must surface in execute(): after the wait, a recorded BaseException is re-raised
     cex = prog.cls("concurrency.executor", "ConcurrentExecutor")
@@ -276,6 +289,20 @@ def build() -> Check:
         ck.ob("R4.timer-thread-routes-checkpoint-failure", fn_construct(resub), protected,
               "create_checkpoint() in the timer thread can raise BackgroundThreadError; nothing catches it and sets the completion event: the map/parallel call waits forever",
               where=f"line {c.lineno}")
+
+    # ... and wherever one of the two thread roots wakes the waiter from inside an `except` handler, it has stored that handler's exception first
+    for f in (fn, resub):
+        for h in [n for n in ast.walk(f.node) if isinstance(n, ast.ExceptHandler)]:
+            for blk in [h.body] + [x.body for x in ast.walk(ast.Module(body=h.body, type_ignores=[])) if isinstance(x, (ast.If,))] + \
+                    [x.orelse for x in ast.walk(ast.Module(body=h.body, type_ignores=[])) if isinstance(x, ast.If)]:
+                sets_ = [i for i, st in enumerate(blk) if isinstance(st, ast.Expr) and "_completion_event.set()" in ast.unparse(st)]
+                if not sets_:
+                    continue
+                stores_ = [i for i, st in enumerate(blk) if isinstance(st, ast.Assign) and isinstance(st.targets[0], ast.Attribute) and isinstance(st.value, ast.Name)
+                           and h.name is not None and st.value.id == h.name]
+                ck.ob("R4.woken-with-the-error", fn_construct(f), bool(stores_) and min(stores_) < min(sets_),
+                      f"`except {ast.unparse(h.type) if h.type else ''}` (line {h.lineno}) wakes the thread blocked in execute() without storing the exception for it first: "
+                      "execute() finds no fatal error and goes on to suspend or to build a result", where=f"line {h.lineno}", cell=f"{ast.unparse(h.type) if h.type else 'bare'}")
 
     # whatever the two thread roots record must be re-raised by the thread blocked in execute()
     recorded = set()
